@@ -126,6 +126,23 @@ def singles_run(view, fn, cols, single_view=None):
     return True
 
 
+def model_defined(m, cols):
+    """Every assignment of the reference model has a real value at each column (a Python float raised to a fractional
+    power silently becomes a complex number in the single-column call, an array entry becomes nan in the batched one:
+    where the model is undefined the property says nothing)."""
+    if m is None:
+        return True
+    from .. import refsem, checks as _checks
+    for c in cols:
+        try:
+            env = _checks.env_from_inputs(m, c)
+            for a in m.assigns.values():
+                refsem.numeric(a, env, m)
+        except Exception:
+            return False
+    return True
+
+
 def spot_check(prog, view, m, fn, cfg, label, single_view=None):
     """Real batched call vs per-column calls for column pairs taken from a small grid of values."""
     import itertools
@@ -149,6 +166,8 @@ def spot_check(prog, view, m, fn, cfg, label, single_view=None):
         n_out = S[0].shape[0]
         bad = [(i, j) for i in range(n_out) for j in range(2)
                if B.shape != (n_out, 2) or differs(float(B[i, j]), float(S[j][i]))]
+        if bad and not model_defined(m, cols):
+            continue
         if bad:
             prog.fact(label + f"|spot{k}", False, "ColumnsDiffer",
                       f"{fn}: column of the batched call differs from the single-column call at slots {bad[:4]} (columns {cols[0]} / {cols[1]})"[:400])
@@ -227,7 +246,10 @@ def check_function(prog: Prog, view: PyView, m, fn, cfg, tag, single_view=None):
         B, S = real_batched(view, fn, cfg, default_cols(view, m), single_view)
         ok = B.shape == (res.length, 2) and all(
             not differs(float(B[i, j]), float(S[j][i])) for i in range(res.length) for j in range(2))
-        prog.fact(label + "|real-arrays", ok, "ColumnsDiffer", f"real call: batched shape {B.shape}, columns differ from single calls")
+        if not ok and not model_defined(m, default_cols(view, m)):
+            prog.skip(label + "|real-arrays", "the model has no real value at the sample columns: outside the property")
+        else:
+            prog.fact(label + "|real-arrays", ok, "ColumnsDiffer", f"real call: batched shape {B.shape}, columns differ from single calls")
     except Exception as e:
         if not singles_run(view, fn, default_cols(view, m), single_view):
             prog.skip(label + "|real-arrays", "the call on a single column raises as well: outside the property")
